@@ -193,6 +193,20 @@ def run(rep, tier, seed):
         xml = "<svg>" + ref.replace("/>", extra + "/>", 1) + "</svg>"
         lcases.append({"k": f"c19l-{j}", "xml": xml, "case": c, "key": xml})
 
+    # the same layouts with a <text> element as the carrier (it is its own anchor): the lines, the step between
+    # them, and nothing of the text-specific vocabulary left on the element
+    for j, c in enumerate(lrecs):
+        if c["shape"] != "rect" or c["side"] != "default" or c["loc"] not in ("c", "t", "br"):
+            continue
+        text = rnd.choice(["\\n", "&#10;"]).join(f"L{i + 1}" for i in range(c["n"]))
+        extra = (f' text-lsp="{c["lsp"] / 1000:g}"' if c["lsp"] else "") + rnd.choice(["", ' text-style="fill:red"'])
+        form = rnd.randrange(2)
+        xml = (f'<svg><text id="s" xy="2 3"{extra} text="{text}"/></svg>' if form or "&#10;" in text else
+               f'<svg><text id="s" xy="2 3"{extra}>{text}</text></svg>')
+        lcases.append({"k": f"c19lt-{j}", "xml": xml, "case": dict(c, carrier="text", anchor=[8, 12]), "key": xml})
+
+    SVGDX_TEXT = {"text", "text-lsp", "text-style", "text-loc", "text-offset", "text-dx", "text-dy", "text-dxy", "xy", "cxy"}
+
     def lcheck(c, resp):
         cs = c["case"]
         if resp["status"] != "ok":
@@ -202,6 +216,22 @@ def run(rep, tier, seed):
         if len(texts) != 1:
             return ("textlines:missing", f"{len(texts)} text elements")
         t = texts[0]
+        left = sorted(k for k in t.attrs if k in SVGDX_TEXT)
+        if left:
+            return ("textlines:text-residue", f"text-specific attributes left on the output <text>: {left}")
+        if cs.get("carrier") == "text":
+            spans = [e for e in t.children if e.kind == "el" and e.name == "tspan"]
+            if [sp.text_content() for sp in spans] != [f"L{i + 1}" for i in range(cs["n"])]:
+                return ("textlines:lines", f"tspans {[sp.text_content() for sp in spans]}")
+            x, y = vlib.fnum(t.attrs.get("x", "")), vlib.fnum(t.attrs.get("y", ""))
+            if x is None or y is None or abs(x - 2) > 0.0015 or abs(y - 3) > 0.0015:
+                return ("textlines:anchor", f"text at ({t.attrs.get('x')}, {t.attrs.get('y')}), written at (2, 3)")
+            for sp in spans[1:]:
+                d = sp.attrs.get("dy", "")
+                v = vlib.fnum(d[:-2]) if d.endswith("em") else None
+                if v is None or abs(v * 1000 - cs["step"]) > 1.5:
+                    return ("textlines:dy", f"tspan dy {d!r}, the line spacing asked for is {cs['step'] / 1000} em")
+            return None
         spans = [e for e in t.children if e.kind == "el" and e.name == "tspan"]
         if [sp.text_content() for sp in spans] != [f"L{i + 1}" for i in range(cs["n"])]:
             return ("textlines:lines", f"tspans {[sp.text_content() for sp in spans]}")
